@@ -31,6 +31,11 @@
 
 #include <xalanc/Include/XalanVector.hpp>
 
+#if defined(APACHE_XALAN_C_VERIF)
+#include <utility>
+#include <vector>
+#endif
+
 
 
 #include <xalanc/XPath/XalanQName.hpp>
@@ -487,6 +492,20 @@ public:
     }
 
     enum { eDefaultStackSize = 100 };
+
+#if defined(APACHE_XALAN_C_VERIF)
+    // verification hook: sizes of the internal stacks
+    void
+    verifReportSizes(std::vector<std::pair<const char*, unsigned long> >&  out) const
+    {
+        out.push_back(std::make_pair("VariablesStack::m_stack", static_cast<unsigned long>(m_stack.size())));
+        out.push_back(std::make_pair("VariablesStack::m_guardStack", static_cast<unsigned long>(m_guardStack.size())));
+        out.push_back(std::make_pair("VariablesStack::m_elementFrameStack", static_cast<unsigned long>(m_elementFrameStack.size())));
+        out.push_back(std::make_pair("VariablesStack::m_currentStackFrameIndex", static_cast<unsigned long>(m_currentStackFrameIndex)));
+        out.push_back(std::make_pair("VariablesStack::m_globalStackFrameIndex", static_cast<unsigned long>(m_globalStackFrameIndex)));
+        out.push_back(std::make_pair("VariablesStack::m_globalStackFrameMarked", m_globalStackFrameMarked ? 1ul : 0ul));
+    }
+#endif
 
 private:
 
